@@ -31,3 +31,12 @@ Example C06_nonvacuous :
   /\ add_double 8%nat true 9221120237041090560 4576918229304087675 = NumDefs.le_bytes 8%nat (orc 8%nat true).
 Proof. split; vm_compute; reflexivity. Qed.
 Print Assumptions C06_nonvacuous.
+
+(* the IEEE addition inside round(): half a step plus at most half an ulp, never more than one code off and only away from zero *)
+From N2kV Require Import Spec.NumSpec2 Proofs.NumProofs2.
+Theorem C06_own_round_within : own_round_within_stmt.  Proof. exact own_round_within. Qed.
+Print Assumptions C06_own_round_within.
+Theorem C06_own_round_adjacent : own_round_adjacent_stmt.  Proof. exact own_round_adjacent. Qed.
+Print Assumptions C06_own_round_adjacent.
+Theorem C06_own_round_2p52 : own_round_2p52_stmt.  Proof. exact own_round_2p52. Qed.
+Print Assumptions C06_own_round_2p52.
